@@ -22,6 +22,14 @@ class _Helper:
 
 
 class StatefulThing(wiring.Component):
+    _registry = []                  # a mutable class attribute: shared by all instances
+
+    def connect_all(self, targets, seen={}):        # a mutable default argument
+        actions = []
+        for t in targets:
+            actions.append(lambda m: m.submodules.__setattr__(str(t), t))    # late binding of `t`
+        return actions
+
     def __init__(self, memory_map):
         self._helper = _Helper()
         self._log = []
